@@ -31,7 +31,7 @@ func init() {
 			"(1) EndTransaction consumes inTxn, endUnconfirmed, every recBuf.addedToTxn (collected in addedSwapped) and offsetsAddedToTxn at entry; on the `commit not attempted` return and after a failed EndTxn each of them is restored before the return; " +
 			"(2) after a failed EndTxn request every path to the return passes failProducerID (so nothing more is produced under the old epoch) and stores endUnconfirmed = true and inTxn = true; the success path stores neither; " +
 			"(3) with an unconfirmed prior end, EndTxn is never issued: a commit retry returns a non-nil error and an abort returns after the producer-ID reload; " +
-			"(4) writers of recBuf.addedToTxn are exactly txnReqBuilder.add (Swap(true), pre-v12), handleReqRespBatch (set on every successful v12+ transactional produce, not conditional on the sink), EndTransaction (consume/restore), undoStagedBatches (clear only for partitions this request newly added) and removeFromTxn; writers of inTxn / endUnconfirmed / offsetsAddedToTxn are BeginTransaction, EndTransaction and commitTransactionOffsets only, under txnMu; BeginTransaction refuses while inTxn.",
+			"(4) writers of recBuf.addedToTxn are exactly txnReqBuilder.add (Swap(true), pre-v12), handleReqRespBatch (set on every successful v12+ transactional produce, not conditional on the sink), EndTransaction (consume/restore), undoStagedBatches (clear only for partitions this request newly added) and removeFromTxn; writers of inTxn / endUnconfirmed / offsetsAddedToTxn are BeginTransaction, EndTransaction and commitTransactionOffsets only, under txnMu; BeginTransaction refuses while inTxn.; (7) the transaction marks survive a purge: producer.purgeTopics reads the addedToTxn mark of every recBuf it abandons and transfers it to a producer-level flag that EndTransaction folds into anyAdded (otherwise a topic purged inside a transaction makes EndTransaction skip the EndTxn and the open transaction is merged into the next one - finding F12).",
 		NotDecided: "visibility at read_committed consumers and the broker side of EndTxn retries (kfake).",
 		Run:        runC11,
 	})
